@@ -195,11 +195,13 @@ static int od_free_pool(ABT_pool pool)
 /* ---- work-unit body ---- */
 static char action;
 static int mig_target;
+static int body_ran;
 static void body(void *arg)
 {
     int me = (int)(intptr_t)arg;
     entered[me]++;
     for (;;) {
+        body_ran = 1;
         if (action == 'f' || tkind[me] == 1)
             break;
         if (action == 'm') {
@@ -227,7 +229,7 @@ static void dump_table(void)
             continue;
         OUT(" | b%d:", i);
         for (; c; c = c->p_next) {
-            if (!c->unit)
+            if ((ABT_unit)c->unit == ABT_UNIT_NULL)
                 OUT(" -");
             else
                 OUT(" u%d>t%d", slot_of((ABT_unit)c->unit), tindex(ABTI_thread_get_handle(c->p_thread)));
@@ -335,10 +337,15 @@ int main(void)
             action = a1[0];
             mig_target = (int)b;
             int done0 = finished[a];
+            body_ran = 0;
             int r = ABT_self_schedule(th[a], ABT_POOL_NULL);
             snprintf(ev, sizeof ev, "%s", obuf);
             olen = 0;
-            if (finished[a] != done0) {
+            if (!body_ran) {
+                /* a pending migration request was honoured at schedule time: pushed, not run */
+                tstate[a] = S_POOL;
+                OUT("run %d migrated%s", r, ev);
+            } else if (finished[a] != done0) {
                 tstate[a] = S_TERM;
                 OUT("run %d term%s", r, ev);
             } else {
